@@ -1,5 +1,6 @@
 """Reader for parsing a DiffX file into DOM objects."""
 
+from pydiffx.errors import DiffXParseError
 from pydiffx.reader import DiffXReader
 from pydiffx.sections import Section
 
@@ -122,7 +123,17 @@ class DiffXDOMReader(object):
             section_info (dict):
                 Information on the section from the streaming reader.
         """
-        section.preamble = section_info['text']
+        text = section_info['text']
+
+        if not isinstance(text, str):
+            # No encoding is in effect for this preamble, so the reader
+            # could only provide the raw bytes.
+            raise DiffXParseError(
+                'The preamble cannot be loaded as text, as neither it nor '
+                'its parent sections specify an encoding',
+                linenum=section_info['line'])
+
+        section.preamble = text
         self._set_content_options(section.preamble_section,
                                   section_info['options'])
 
